@@ -10,9 +10,18 @@
    and replayed on the real library.
    Lite = TRUE is the full-resolution mode: the per-operator formulas are checked once for all
    256 x 128 (factor, TL byte) pairs (Lemma) and the walk only checks the volume number itself
-   (carrier TL = ScaleTL(volume, x) is antitone in volume by the lemma). *)
+   (carrier TL = ScaleTL(volume, x) is antitone in volume by the lemma).
+   ShareN > 0 selects the second model instead: ONE chip channel held by up to ShareN notes of one
+   instrument (Level.tla part 3).  Notes join (NoteOn), their MIDI channel's CC7 / CC11 and the master
+   volume change, notes leave, and the arpeggio ticks; every key-on must find the owner's levels in the
+   registers (`stale`) and the predicates of C11 must hold for what is then heard.  ArpRelevel = TRUE is
+   the code (the arpeggio's refresh mask contains Upd_Volume); FALSE shows what the invariant forbids.
+   A holder can also be re-pitched (pitch bend: a key-on); TakeOver = TRUE is the code since /repo 5cd89c0 (a note keying
+   on a channel whose registers were levelled for another note re-levels it), FALSE the code as written before (refuted:
+   `stale`, `zero`).  With TakeOver = TRUE the invariant also holds for ArpRelevel = FALSE: the mask bit is redundant. *)
 EXTENDS Level, Json
-CONSTANTS Grid, MGrid, BGrid, VMs, FRBs, InitAll, Dirs, Lite, EmitDepth, MaxDepth
+CONSTANTS Grid, MGrid, BGrid, VMs, FRBs, InitAll, Dirs, Lite, EmitDepth, MaxDepth, ShareN, ArpRelevel, TakeOver
+ASSUME ShareN \in 0..4      \* the arpeggio counter is kept modulo 12 = a multiple of rate * holders for 2..4 holders
 VARIABLES s, bad, hist
 vars == <<s, bad, hist>>
 View == <<s, bad>>
@@ -60,14 +69,37 @@ Lemma ==
   /\ \A i \in 1..31 : W9xTab[i] >= W9xTab[i + 1]
   /\ \A i \in 1..62 : GenThr[i] < GenThr[i + 1]
 
+---------------------------------------------------------------------------
+(* The time-shared chip channel.  s = [vm, m, C]; holders are notes of one instrument (algorithm 4: two
+   carriers, two modulators) that differ in velocity, CC7 and CC11. *)
+SHolders == { [perc |-> FALSE, alg |-> 4, itl |-> ITL(1), veloff |-> 0, soft |-> FALSE, v |-> v, vol |-> c, expr |-> e, b |-> 127] :
+              v \in VGrid, c \in Grid, e \in Grid }
+SG(vm, m) == [vm |-> vm, smod |-> FALSE, frb |-> FALSE, mv |-> m]
+Norm(C) == [C EXCEPT !.ctr = @ % 12]
+KeyedBad(G, C) == KeyOnBad(KeyOnObs(G, C)) \cup KeyOnStale(G, C)
+ShareInit == s \in [vm : VMs, m : MGrid, C : {ChanEmpty}] /\ bad = {} /\ hist = <<>>
+ShareTo(vm, m, C, keyed) ==
+  /\ s' = [vm |-> vm, m |-> m, C |-> C] /\ hist' = hist
+  /\ bad' = bad \cup (IF keyed THEN KeyedBad(SG(vm, m), C) ELSE {})
+ShareNext ==
+  LET G == SG(s.vm, s.m)  C == s.C  n == Len(s.C.users) IN
+  \/ \E h \in SHolders : n < ShareN /\ ShareTo(s.vm, s.m, ChanJoin(G, C, h), TRUE)
+  \/ \E i \in 1..n, x \in Grid : \/ x # C.users[i].vol /\ ShareTo(s.vm, s.m, ChanCtl(G, C, i, [C.users[i] EXCEPT !.vol = x]), FALSE)
+                                 \/ x # C.users[i].expr /\ ShareTo(s.vm, s.m, ChanCtl(G, C, i, [C.users[i] EXCEPT !.expr = x]), FALSE)
+  \/ \E m \in MGrid : m # s.m /\ ShareTo(s.vm, m, ChanRelevelAll(SG(s.vm, m), C), FALSE)
+  \/ \E i \in 1..n : ShareTo(s.vm, s.m, ChanLeave(C, i), FALSE)
+  \/ \E i \in 1..n : ShareTo(s.vm, s.m, ChanRepitch(G, C, i, TakeOver), TRUE)
+  \/ ShareTo(s.vm, s.m, Norm(ChanTick(G, C, ArpRelevel, TakeOver)), n >= 2)
+
 MidOf(S) == CHOOSE x \in S : Cardinality({ y \in S : y < x }) = Cardinality(S) \div 2
 Ends(S) == {MinOf(S), MidOf(S), MaxOf(S)}
 Starts == IF InitAll THEN [vm : VMs, v : Ends(VGrid), c : Ends(Grid), e : Ends(Grid), m : Ends(MGrid), b : Ends(BGrid), frb : FRBs]
           ELSE [vm : VMs, v : {MinOf(VGrid)}, c : {MinOf(Grid)}, e : {MinOf(Grid)}, m : {MinOf(MGrid)}, b : {MinOf(BGrid)}, frb : FRBs]
-Init == /\ s \in Starts
+Init == IF ShareN > 0 THEN ShareInit ELSE
+        /\ s \in Starts
         /\ bad = StateBad(s) \cup (IF Lemma THEN {} ELSE {"lemma"})
         /\ hist = <<s.vm, s.v, s.c, s.e, s.m, s.b, IF s.frb THEN 1 ELSE 0>>
-Next == \E mv \in 1..10 :
+Next == IF ShareN > 0 THEN ShareNext ELSE \E mv \in 1..10 :
   LET a == ((mv - 1) \div 2) + 1
       d == ((mv - 1) % 2) + 1
       y == Neighbour(AxisGrid(a), Get(s, a), d)
